@@ -461,6 +461,7 @@ pub fn cmd_sched(m: &HashMap<String, String>) -> i32 {
     let setup_s = t0.elapsed().as_secs_f64();
     let _ = std::fs::create_dir_all(&replay_dir);
     STALL_SINK.with(|s| *s.borrow_mut() = Some((format!("{}/{}-{}-stall-selfcheck.json", replay_dir, property, seed), out.clone(), property.clone(), seed, -1, cfg_json(&cfg))));
+    *crate::sched::REF_STALL_SINK.lock().unwrap() = Some((format!("{}/{}-{}-stall-ref{}.json", replay_dir, property, seed, shard), out.clone(), property.clone(), seed, cfg_json(&cfg).to_string()));
 
     let mut counters = Counters::default();
     let mut dg = Digest::new();
